@@ -294,3 +294,12 @@ func VerifRetryConsts() [][2]any {
 		{"PP_retryNonceV2", verifCoqString(hexs(retryNonceV2[:]))},
 	}
 }
+
+// ChaChaHPKeyEnc returns the header-protection key of the sending direction when the suite is
+// TLS_CHACHA20_POLY1305_SHA256 (nil otherwise): input of the Gallina ChaCha20 mask.
+func (v *VerifUAEAD) ChaChaHPKeyEnc() []byte {
+	if p, ok := v.a.headerEncrypter.(*chachaHeaderProtector); ok {
+		return append([]byte{}, p.key[:]...)
+	}
+	return nil
+}
